@@ -139,6 +139,31 @@ def work(item, tier, seed):
                       f"(err {worst[0]:.3e}, nq={nq})",
                       case={'kind': kind, 'order': n, 'monomial': worst[1],
                             'got': float(worst[2]), 'exact': float(worst[3])})
+    # the caller owns what it gets: scribbling over a returned rule must not change the next answer
+    X0, W0 = X.copy(), W.copy()
+    try:
+        X *= -3.0
+        W *= 0.0
+    except ValueError:
+        pass                      # read-only arrays are fine too
+    X2, W2 = get_quadrature(_refdom(kind), n)
+    out.ev()
+    if not (np.array_equal(np.asarray(X2), X0) and np.array_equal(np.asarray(W2), W0)):
+        out.violation(sig0 + 'aliased-result', "a second request returns a different rule after the caller modified the "
+                      "arrays returned by the first request (results share storage)", case={'kind': kind, 'order': n})
+    # lower-dimensional rules used to build tensor rules must not be shared either
+    if kind in ('quad', 'hex', 'wedge'):
+        from skfem import refdom as rd
+        Xl, Wl = get_quadrature(rd.RefLine, n)
+        try:
+            Xl *= 2.0
+            Wl *= 0.5
+        except ValueError:
+            pass
+        X3, W3 = get_quadrature(_refdom(kind), n)
+        if not (np.array_equal(np.asarray(X3), X0) and np.array_equal(np.asarray(W3), W0)):
+            out.violation(sig0 + 'aliased-result', "the rule changes after the caller modified a segment rule of the same "
+                          "order (tensor rules share storage with it)", case={'kind': kind, 'order': n})
     if n >= 1:
         out.nt((kind, n))
     out.sample({'cell': kind, 'order': n, 'nq': nq, 'monomials': nmono, 'max_abs_err': worst[0]}, 1)
